@@ -550,7 +550,7 @@ class Mahony:
         if a_norm > 0:
             m_norm = np.linalg.norm(mag)
             if m_norm == 0:
-                return self.updateIMU(q, gyr, acc)
+                return self.updateIMU(q, gyr, acc, dt=dt)
             a = np.copy(acc)/a_norm
             m = np.copy(mag)/m_norm
             R = q.to_DCM()
